@@ -66,6 +66,7 @@ def build_plans(seed: int, tier: str) -> list:
             "worker": w,
             "hyp_seed": rng.randrange(1, 2 ** 31),
             "hash_key": rng.randrange(1, 2 ** 32),
+            "sympy_seed": rng.randrange(0, 2 ** 31),
             "stub": ("present", "absent", "present", "real")[w % 4],
             "faults": (w // 4) % 2 == 1 or w % 4 == 2,
             "heavy": w % 8 == 6,
@@ -115,7 +116,8 @@ def violation_fields(v: dict) -> dict:
 
 
 def run_replay_doc(doc: dict, root: Path) -> dict:
-    plan = {"worker": 0, "mode": "replay", "doc": doc, "hash_key": doc.get("hash_key", 0), "stub": doc.get("stub")}
+    plan = {"worker": 0, "mode": "replay", "doc": doc, "hash_key": doc.get("hash_key", 0), "stub": doc.get("stub"),
+            "sympy_seed": doc.get("sympy_seed", 0)}
     res = run_workers([plan], root, 1800, 1)[0]
     return res
 
@@ -151,7 +153,7 @@ def main(tier: str, workers: int = 16) -> int:
             continue
         fields = violation_fields(v)
         doc = {"property": "C18", "seed": seed, "tier": tier, "worker": plan["worker"], "hyp_seed": plan["hyp_seed"],
-               "hash_key": plan["hash_key"], "stub": plan["stub"], "faults": plan["faults"], "pool": plan["pool"],
+               "hash_key": plan["hash_key"], "sympy_seed": plan["sympy_seed"], "stub": plan["stub"], "faults": plan["faults"], "pool": plan["pool"],
                "trace": v["trace"], "violation": v["violation"], "fields": fields}
         # exact replay in fresh real processes before anything is reported
         rr = run_replay_doc(doc, root / ("confirm%03d" % plan["worker"]))
@@ -211,7 +213,7 @@ def main(tier: str, workers: int = 16) -> int:
         "probes": {k: stats.get(k, 0) for k in (
             "preexisting_output_overwritten", "preexisting_longer_output_overwritten", "failure_with_preexisting_output",
             "pipeline_after_cellml", "formatter_stub_applied", "formatter_missing_env", "ambiguous_expectation_sets",
-            "real_process_mirrors", "fidelity_mismatch", "candidates", "config_overrode_cli_value", "config_applied_unambiguously", "real_process_cache_hits", "c_output_with_real_clang_format_env", "candidates_confirmed_in_real_process",
+            "real_process_mirrors", "fidelity_mismatch", "api_real_process_runs", "candidates", "config_overrode_cli_value", "config_applied_unambiguously", "real_process_cache_hits", "c_output_with_real_clang_format_env", "candidates_confirmed_in_real_process",
             "candidates_not_confirmed", "success_with_nondefault_option")},
         "canonical_event_log_sha256": log_digest,
         "invocations_per_hour": round(inv / wall * 3600) if wall > 0 else 0,
